@@ -71,6 +71,7 @@ def run(F, R):
     decode_tables_rule(F, R, 'Z10', ['device::'])
     z11_rtc(F, R, M, roles)
     z12_mount_tag(F, R)
+    z13_stream_ids(F, R)
 
 
 def z1_encodings(F, R):
@@ -764,6 +765,24 @@ def z11_rtc(F, R, M, roles):
         R.check(bad is None and bool(paths), 'Z11', 'rtc:%s:decode' % b['name'], fn_site(F, b['id']), 'response decoded per the virtio-rtc code tables',
                 'clock driver %s: %s' % (b['name'], bad if bad else 'no successful path'))
     R.count('rtc_ops', nops)
+
+
+def z13_stream_ids(F, R):
+    """Stream ids handed to the caller are positions in the device's stream table: wherever the sound driver numbers
+    streams with `enumerate`, the enumeration is applied to the table itself (a slice iterator), not to a filtered view."""
+    snd = 'device::sound::VirtIOSound'
+    n = 0
+    for b in F.bodies.values():
+        if b.get('impl_adt') != snd or not F.handwritten(b) or b['kind'] != 'AssocFn' or not b.get('pub') or 'Vec<u32>' not in b.get('sig', ''):
+            continue
+        en = [bl['term'] for bl in b['blocks'] if bl['term']['k'] == 'call' and bl['term'].get('trait') == 'core::iter::Iterator' and bl['term'].get('method') == 'enumerate']
+        if not en:
+            continue
+        n += 1
+        bad = [t.get('self_ty') for t in en if not (t.get('self_ty') or '').startswith('core::slice::Iter<')]
+        R.check(not bad, 'Z13', '%s:ids-are-table-positions' % b['id'], fn_site(F, b['id']), 'enumerate is applied to the stream table itself',
+                '%s numbers the elements of %s: the returned ids are positions in a filtered view, not the device\'s stream ids' % (b['name'], ((bad[0] if bad else None) or '?')[:80]))
+    R.count('stream_id_fns', n)
 
 
 def z6_edid(F, R):
